@@ -223,4 +223,28 @@ theorem objref_consumes (bs : List Nat) (i j : Nat) (t : List Nat) (o : ObName) 
       refine ⟨rfl, hob, ?_, hol, hle⟩
       rw [hlen]; congr 1; omega
 
+/-! ### VSINGL exactly as the repository codes it (DESIGN F9) -/
+
+/-- `VSINGL` on its fields: sign `S = b1 bit 7`, exponent `E = (b1 low 7 bits)·2 + b0 bit 7`, fraction
+`F = (b0 low 7 bits)·2^16 + b3·2^8 + b2`; value `(-1)^S · (2^22 + F) · 2^(E - 151)` = `(0.5 + F/2^23)·2^(E-128)`,
+and `0` when `E = 0 ∧ S = 0`. -/
+theorem vax4_spec (b0 b1 b2 b3 : Nat) (h0 : b0 < 256) (h1 : b1 < 256) (h2 : b2 < 256) (h3 : b3 < 256) :
+    vax4 b0 b1 b2 b3 =
+      (let F := (b0 % 128) * 65536 + b3 * 256 + b2
+       let E := (b1 % 128) * 2 + b0 / 128
+       if E = 0 ∧ b1 < 128 then .fin ⟨0, 0⟩
+       else .fin ⟨if b1 < 128 then ((4194304 + F : Nat) : Int) else -((4194304 + F : Nat) : Int), (E : Int) - 151⟩) := by
+  unfold vax4
+  have e1 : b1 &&& 0x80 = (b1 / 128 % 2) * 128 := and_mask b1 1 7
+  have e2 : b0 &&& 0x80 = (b0 / 128 % 2) * 128 := and_mask b0 1 7
+  have e3 : ((b1 % 128) <<< 1) ||| ((b0 / 128 % 2 * 128) >>> 7) = (b1 % 128) * 2 + b0 / 128 := by
+    rw [Nat.shiftRight_eq_div_pow, ← Nat.shiftLeft_add_eq_or_of_lt (by simp only [Nat.reducePow]; omega), Nat.shiftLeft_eq]
+    simp only [Nat.reducePow]; omega
+  simp only [e1, e2, and_7f, be3 _ _ _ h3 h2, e3]
+  by_cases hs : b1 < 128
+  · have : b1 / 128 % 2 * 128 = 0 := by omega
+    simp [this, hs]
+  · have : b1 / 128 % 2 * 128 ≠ 0 := by omega
+    simp [this, hs]
+
 end TD.C07
